@@ -4365,7 +4365,7 @@ fn delete_char_range(value: &str, offset: usize, count: usize) -> String {
         chars.len()
     };
 
-    let e = if s + count < chars.len() {
+    let e = if count < chars.len() - s {
         s + count
     } else {
         chars.len()
